@@ -44,16 +44,16 @@ type w7hParser interface {
 // ---------------------------------------------------------------- SSE
 
 type w7hSSEParser struct {
-	emit    func(w7hRecord)
-	head    []byte // first bytes of the stream until the BOM decision is made
-	headOK  bool
-	line    []byte
-	sawCR   bool
-	data    []byte
-	hasData bool
-	evType  string
-	lastID  string
-	pending int
+	emit              func(w7hRecord)
+	head              []byte // first bytes of the stream until the BOM decision is made
+	headOK            bool
+	line              []byte
+	sawCR             bool
+	data              []byte
+	hasData           bool
+	evType            string
+	lastID            string
+	pending           int
 	Comments, Ignored int
 }
 
